@@ -1,5 +1,5 @@
 (* correspondence glue for C16: one constructor per decoder entry point *)
-From V Require Export Base.Hex Store.Codec.
+From V Require Export Base.Hex Store.Codec Store.AppMeta.
 
 Definition txmd_eqb (a b : txmd) : bool :=
   opt_eqb N.eqb (md_trunc a) (md_trunc b) && opt_eqb bytes_eqb (md_extra a) (md_extra b).
@@ -20,7 +20,9 @@ Inductive case :=
 | CHdr (inp : bytes) (out : res txhdr)
 (* ReplicateTx on a real store: did it panic, did it return an error, did the store's
    (precommitted id, committed id) change *)
-| CRepl (inp : bytes) (panicked errored changed : bool).
+| CRepl (inp : bytes) (panicked errored changed : bool)
+(* appendable.NewMetadata(inp) then Get / GetInt / GetBool of a key: panicked?, what came back *)
+| CAppMd (inp key : bytes) (panicked : bool) (got : option bytes) (gotint : option N) (gotbool : option bool).
 
 Definition case_ok (c : case) : bool :=
   match c with
@@ -31,5 +33,10 @@ Definition case_ok (c : case) : bool :=
       negb panicked &&
       (if is_ok (repl_parse i) then true else errored) &&
       (if errored then negb changed else true)
+  | CAppMd i k panicked got gi gb =>
+      negb panicked &&
+      opt_eqb bytes_eqb (appmd_get i k) got &&
+      res_eqb (opt_eqb N.eqb) (appmd_get_int i k) (Ok gi) &&
+      res_eqb (opt_eqb Bool.eqb) (appmd_get_bool i k) (Ok gb)
   end.
 
